@@ -2,6 +2,7 @@ package main
 
 import (
 	"fmt"
+	"strconv"
 	"go/constant"
 	"go/token"
 	"go/types"
@@ -223,6 +224,21 @@ func c07BinOps(c *Ctx, p *Prog, fn *ssa.Function, dispatch ssa.Value) {
 				}
 			}
 		}
+		// … or the row of a table of operator functions indexed by the dispatch byte
+		if k, ok := d.tableKeyFor(dispatch); ok {
+			opByte = rune(k)
+		}
+		// … or what is left of a shared case (`case '/', 'm': if ch == '/' {…} else {HERE}`): the
+		// case is entered from one of its comparisons, all but one are refuted on the way
+		if opByte < 0 && len(d.chain) == 0 {
+			for _, a := range guardsAt(bo.Block()) {
+				if a.Op == "==" && a.L == valName(dispatch) {
+					if k, err := strconv.ParseInt(a.R, 10, 32); err == nil {
+						opByte = rune(k)
+					}
+				}
+			}
+		}
 		if opByte < 0 {
 			continue
 		}
@@ -294,6 +310,9 @@ func c07BinOps(c *Ctx, p *Prog, fn *ssa.Function, dispatch ssa.Value) {
 						opByte = rune(k)
 					}
 				}
+			}
+			if k, ok := d.tableKeyFor(dispatch); ok {
+				opByte = rune(k)
 			}
 			if opByte != 'A' && opByte != 'O' {
 				continue
@@ -1424,6 +1443,9 @@ func c07CallLocal(c *Ctx, p *Prog, fn *ssa.Function) {
 		eachInstr(f, func(in ssa.Instruction) {
 			for _, op := range in.Operands(nil) {
 				if g, ok := (*op).(*ssa.Global); ok && g.Pkg == p.Terminfo {
+					if !globalIsStored(p, g) {
+						continue // a table filled by the package initialiser and never written again: a constant
+					}
 					globals[g.Name()] = true
 				}
 			}
